@@ -33,6 +33,7 @@ from ...ast.fpyast import (
     Assign,
     Expr,
     ForStmt,
+    IfStmt,
     ListComp,
     ListRef,
     NamedId,
@@ -171,6 +172,18 @@ def _root_var(e: Expr) -> Var | None:
     return e if isinstance(e, Var) else None
 
 
+def _stmt_inside(outer: Stmt, site: object) -> bool:
+    """Whether *site* is a statement nested (at any depth) in *outer*'s blocks."""
+    for attr in ('ift', 'iff', 'body'):
+        block = getattr(outer, attr, None)
+        if block is None:
+            continue
+        for stmt in block.stmts:
+            if stmt is site or _stmt_inside(stmt, site):
+                return True
+    return False
+
+
 def _is_external(members: list[Definition]) -> bool:
     for d in members:
         if isinstance(d, AssignDef) and (
@@ -271,8 +284,12 @@ class StorageInfer:
 
         def_to_name = {d: class_to_name[c] for d, c in def_class.items()}
 
-        # Hoisting is required only for a phi that introduces a name fresh in
-        # both branches (`is_intro`); otherwise FPy well-formedness guarantees
+        # Hoisting is required for a phi that introduces a name fresh in both
+        # branches (`is_intro`) -- and for one whose name existed before but is
+        # *rebound* in both: a rebinding starts a new object, so the class holds
+        # the two branch defs and the phi but not the earlier def, and its
+        # lowest-index AssignDef sits inside the `then` branch, dominating
+        # nothing in the `else`.  Everywhere else FPy well-formedness guarantees
         # the lowest-index AssignDef dominates the class, so it declares on
         # assign and the rest reassign.
         #
@@ -285,8 +302,19 @@ class StorageInfer:
         for c, members in class_members.items():
             if c in external_classes:
                 continue
-            intro_phis = [d for d in members
-                          if isinstance(d, PhiDef) and d.is_intro]
+            assigns = [d for d in members if isinstance(d, AssignDef)]
+            first = (
+                min(assigns, key=lambda d: def_use.def_to_idx[d])
+                if assigns else None
+            )
+            intro_phis = [
+                d for d in members
+                if isinstance(d, PhiDef) and (
+                    d.is_intro
+                    or (first is not None and isinstance(d.site, IfStmt)
+                        and _stmt_inside(d.site, first.site))
+                )
+            ]
             if intro_phis:
                 anchor_phi = max(intro_phis, key=lambda d: def_use.def_to_idx[d])
                 hoists_before[anchor_phi.site].append(c)
